@@ -162,3 +162,35 @@ package store
 //@   modifies ghost.nrepl, alloc
 //@   # the resource id is the pattern with the tag replaced by Pattern.ReplaceTag (token-wise), in one pass
 //@   ensures by.pattern: nrepl == old(nrepl) + 1
+//@
+//@ # the query-resource path: every query request of the query event is answered from the change (C14)
+//@ func callback.qrhCB(self ref, rname string, pathParams map[string]string, q url.Values) (nq url.Values, norm string, err error)
+//@   modifies alloc
+//@ func (o *queryHandler) getResult(q url.Values) (result interface{}, err error)
+//@   requires o != nil && !isNil(o.qs)
+//@   modifies alloc
+//@ func queryHandler.queryEvent$1(qreq res.QueryRequest)
+//@   requires o != nil && !isNil(qc) && o.qrh != nil && !isNil(o.qs)
+//@   modifies ghost.qqans, ghost.qqevn, alloc
+//@   may_panic
+//@   callback qrh qrhCB
+//@   # the final nil call answers nothing; a request is answered at most once here (an error, or the full result when the
+//@   # change resets the query); otherwise exactly the (transformed) events of the change are added, and none when unaffected
+//@   ensures final: imp(isNil(qreq), qqans == old(qqans) && qqevn == old(qqevn))
+//@   ensures atmost: qqans == old(qqans) || (qqans == old(qqans) + 1 && qqevn == old(qqevn))
+//@   ghost exit :: assert events: imp(qqans == old(qqans) && !isNil(qreq), qqevn == old(qqevn) + len(evs))
+//@   loop 1 invariant -1 <= rangeindex && rangeindex < len(evs) + 0 && qqevn == old(qqevn) + rangeindex + 1 && qqans == old(qqans) && !isNil(qreq)
+//@ func (o *queryHandler) queryEvent(qrid string, qc QueryChange)
+//@   requires o != nil && o.s != nil && muxOK(o.s.Mux) && !isNil(qc)
+//@   modifies ghost.nqev, alloc, res.Match.Handler, res.Match.Listeners, res.Match.Params, res.Match.Group, res.resource.rname, res.resource.pathParams, res.resource.query, res.resource.group, res.resource.h, res.resource.listeners, res.resource.s
+//@   may_panic
+//@   ensures one: nqev == old(nqev) + 1
+//@ func (o *queryHandler) queryChangeHandler(qc QueryChange)
+//@   requires o != nil && o.s != nil && muxOK(o.s.Mux) && !isNil(qc)
+//@   modifies ghost.nqev, alloc, res.Match.Handler, res.Match.Listeners, res.Match.Params, res.Match.Group, res.resource.rname, res.resource.pathParams, res.resource.query, res.resource.group, res.resource.h, res.resource.listeners, res.resource.s
+//@   may_panic
+//@   callback ar arCB
+//@   # one query event per affected query resource (the handler's own pattern without an AffectedResources callback)
+//@   ensures plain: imp(old(o.ar == nil), nqev == old(nqev) + 1)
+//@   ghost exit :: assert listed: imp(old(o.ar != nil), nqev == old(nqev) + len(qrids))
+//@   loop 1 invariant -1 <= rangeindex && rangeindex < len(qrids) + 0 && nqev == old(nqev) + rangeindex + 1 && o != nil && o.s != nil && muxOK(o.s.Mux)
